@@ -1,0 +1,21 @@
+//go:build verif
+
+package cmds
+
+// Add-only exports for the verification harness (family lru: C06-C10).
+
+// VerifLruNewCacheable builds a Cacheable with exactly the given tokens and the flag bits the
+// cache identity functions look at (scrRoTag, staticTTLTag, mtGetTag).
+func VerifLruNewCacheable(ss []string, scrRo, static, mget bool) Cacheable {
+	cf := readonly
+	if scrRo {
+		cf |= scrRoTag
+	}
+	if static {
+		cf |= staticTTLTag
+	}
+	if mget {
+		cf |= mtGetTag
+	}
+	return Cacheable{cs: newCommandSlice(ss), cf: cf}
+}
